@@ -24,6 +24,7 @@
 import ClientGoVerif.Proofs.MvccStable
 import ClientGoVerif.Proofs.Perc
 import ClientGoVerif.Proofs.MvccFull
+import ClientGoVerif.Proofs.MvccFullSeq
 import ClientGoVerif.Proofs.MvccTemporal
 import ClientGoVerif.Proofs.MvccSI
 namespace CGV.Props.C01
@@ -81,6 +82,20 @@ theorem async_commit_ts_above_served_reads (f f' : MvccFull.FStore) (r : Prewrit
     (resp.minCommitTS ≠ 0 → f.maxTS < resp.minCommitTS ∧ r.startTS < resp.minCommitTS ∧ r.forUpdateTS < resp.minCommitTS ∧ r.minCommitTS ≤ resp.minCommitTS) ∧
     (resp.onePCCommitTS ≠ 0 → f.maxTS < resp.onePCCommitTS ∧ r.startTS < resp.onePCCommitTS ∧ r.forUpdateTS < resp.onePCCommitTS) :=
   MvccFull.fprewrite_ts_above_reads f f' r x resp hfresh h
+
+/-- async commit / 1PC over request SEQUENCES (profile `full`): a read at `ts`, then any requests whatever, then a
+    (non-retry) prewrite answered with a min_commit_ts / one-phase commit ts — that timestamp is above `ts`.  The store
+    discharges for async commit the guard of `served_read_is_snapshot` that the timestamp oracle discharges for 2PC. -/
+theorem async_commit_above_every_earlier_read (f0 f1 f2 f3 : MvccFull.FStore) (a b : Bytes) (k tsS : String)
+    (rest : List String) (ts : Nat) (out : String) (ws : List (Bytes × Bytes × List String)) (st fu : Nat)
+    (r : PrewriteReq) (x : MvccFull.FPrewriteExtra) (resp : MvccFull.FPrewriteResp)
+    (hts : tsS.toNat? = some ts) (hne : ts ≠ maxU64)
+    (hread : MvccFull.frpcExec f0 a b ("get" :: k :: tsS :: rest) = some (f1, out))
+    (hrun : MvccFull.frun f1 ws = some f2)
+    (hfresh : MvccFull.ownCommitTS ((f2.bump st).bump fu) r = none)
+    (hpw : MvccFull.fprewrite ((f2.bump st).bump fu) r x = (f3, resp)) :
+    (resp.minCommitTS ≠ 0 → ts < resp.minCommitTS) ∧ (resp.onePCCommitTS ≠ 0 → ts < resp.onePCCommitTS) :=
+  MvccFull.async_commit_above_every_earlier_read f0 f1 f2 f3 a b k tsS rest ts out ws st fu r x resp hts hne hread hrun hfresh hpw
 
 theorem served_read_raises_max_ts (f : MvccFull.FStore) (ts : Nat) (h : ts ≠ maxU64) : ts ≤ (f.bump ts).maxTS :=
   MvccFull.bump_covers f ts h
